@@ -95,7 +95,8 @@ class ModelElement(ABC):
         node_props.pop(ABCPropertyGraph.GRAPH_ID)
         if str(self.topo.__class__) == "<class 'fim.user.topology.ExperimentTopology'>":
             node_props.pop(ABCPropertyGraph.NODE_ID)
-            node_props.pop(ABCPropertyGraph.PROP_STITCH_NODE)
+            # (written only when the flag was set)
+            node_props.pop(ABCPropertyGraph.PROP_STITCH_NODE, None)
         ret = str(labels) + str(node_props)
         return ret
 
